@@ -96,3 +96,15 @@ Example C02_given_weights_premises_satisfiable :
   sat exAg (encode_kfd_given exIg [2%Q; 3%Q; 5%Q] 2) /\ p_allow_empty (f_base exIg) = true /\ length [2%Q; 3%Q; 5%Q] = p_k (f_base exIg).
 Proof. exact (conj ex_given_sat (conj eq_refl eq_refl)). Qed.
 Print Assumptions C02_given_weights_premises_satisfiable.
+
+(* converse for the given-weights LP: it is feasible EXACTLY when at most k_orig simple source-to-sink paths, path i carrying
+   the i-th given weight, explain every non-ignored edge (the other weights unused) *)
+From FP Require Import PathEncGivenComplete.
+Theorem C02_given_weights_model_feasible_iff :
+  forall (I : kfd_inst) (ws : list Q) (k_orig : nat) (rank : node -> nat) (Rm : nat),
+  PathEncProofs.wf_graph (p_graph (f_base I)) -> p_allow_empty (f_base I) = true -> p_cons (f_base I) = [] ->
+  length ws = p_k (f_base I) ->
+  (forall u v, In (u, v) (g_edges (p_graph (f_base I))) -> (rank u < rank v)%nat) -> (forall v, (rank v <= Rm)%nat) ->
+  ((exists a, sat a (encode_kfd_given I ws k_orig)) <-> (exists P, given_choice I ws k_orig P)).
+Proof. exact kfdw_feasible_iff. Qed.
+Print Assumptions C02_given_weights_model_feasible_iff.
